@@ -24,13 +24,23 @@ CodePoints(s, a, b) == [k \in 1..(b - a) |-> s[a + k - 1][1]]   \* text of s[a..
 \* walk the rules of the current state in order: the first rule whose pattern matches the remaining input
 \* (as a text of its own) is selected; a Return rule reached first wins; a back-reference to a group the
 \* entering rule did not capture is an error when that rule is reached.
-RECURSIVE Scan(_, _, _, _, _)
-Scan(rs, k, s, i, grp) ==
+\* poss = TRUE selects the possessive matcher of the generated lexers (Regex!PossEnd) instead of backtracking.
+RECURSIVE Scan(_, _, _, _, _, _)
+Scan(rs, k, s, i, grp, poss) ==
   IF k > Len(rs) THEN [kind |-> "none"]
   ELSE IF rs[k].act = "return" THEN [kind |-> "return"]
   ELSE IF \E n \in 1..Len(rs[k].backrefs) : rs[k].backrefs[n] + 1 > Len(grp) THEN [kind |-> "badref", k |-> k]
-  ELSE LET m == BtMatch(rs[k].tree, rs[k].ncap, [s |-> Rest(s, i), grp |-> grp]) IN
-       IF m.e = 0 THEN Scan(rs, k + 1, s, i, grp) ELSE [kind |-> "match", k |-> k, len |-> m.e - 1, caps |-> m.c]
+  ELSE LET E == [s |-> Rest(s, i), grp |-> grp]
+           m == IF poss THEN [e |-> PossEnd(rs[k].tree, E, 1), c |-> NoCaps(rs[k].ncap)] ELSE BtMatch(rs[k].tree, rs[k].ncap, E) IN
+       IF m.e = 0 THEN Scan(rs, k + 1, s, i, grp, poss) ELSE [kind |-> "match", k |-> k, len |-> m.e - 1, caps |-> m.c]
+
+\* some rule of the state matches differently under the two semantics on the remaining input (C05's tolerated case)
+RECURSIVE AnyDiff(_, _, _, _)
+AnyDiff(rs, k, s, i) ==
+  IF k > Len(rs) THEN FALSE
+  ELSE IF rs[k].act \in {"return", "include"} THEN AnyDiff(rs, k + 1, s, i)
+  ELSE LET E == [s |-> Rest(s, i), grp |-> <<>>] IN
+       BtMatch(rs[k].tree, rs[k].ncap, E).e # PossEnd(rs[k].tree, E, 1) \/ AnyDiff(rs, k + 1, s, i)
 
 \* groups handed to the entered state: group 0 = the whole match, then every sub-match ("" when unset)
 Groups(s, i, len, caps) ==
@@ -38,20 +48,24 @@ Groups(s, i, len, caps) ==
   [n \in 1..Len(caps) |-> IF caps[n] = <<0, 0>> THEN <<>> ELSE CodePoints(s, i + caps[n][1] - 1, i + caps[n][2] - 1)]
 
 NoTok == [name |-> "", from |-> 0, to |-> 0, pos |-> StartPos]
-Res(st, status, tok) == [st |-> st, status |-> status, tok |-> tok, why |-> ""]
-Err(st, why) == [st |-> st, status |-> "err", tok |-> NoTok, why |-> why]
+Res(st, status, tok) == [st |-> st, status |-> status, tok |-> tok, why |-> "", diff |-> FALSE]
+Err(st, why) == [st |-> st, status |-> "err", tok |-> NoTok, why |-> why, diff |-> FALSE]
 
-\* one call of Next().  st = [i, pos, stack]; stack entries [name, groups]
-RECURSIVE Call(_, _, _)
-Call(c, s, st) ==
+\* one call of Next().  st = [i, pos, stack]; stack entries [name, groups].
+\* opt = [poss |-> matcher, track |-> whether to report in .diff that some visited step was a tolerated one]
+RECURSIVE CallM(_, _, _, _)
+WithDiff(r, d) == [r EXCEPT !.diff = r.diff \/ d]
+CallM(c, s, st, opt) ==
   IF st.stack = <<>> THEN Res(st, "panic", NoTok)
   ELSE IF st.i > Len(s) THEN Res(st, "eof", [name |-> "EOF", from |-> st.i, to |-> st.i, pos |-> st.pos])
   ELSE LET rs == RulesOf(c, Top(st.stack).name)
-           sc == Scan(rs, 1, s, st.i, Top(st.stack).groups)
-       IN CASE sc.kind = "return" ->
+           sc == Scan(rs, 1, s, st.i, Top(st.stack).groups, opt.poss)
+           d == opt.track /\ AnyDiff(rs, 1, s, st.i)
+       IN IF d THEN WithDiff(Err(st, "tolerated"), TRUE) ELSE
+          CASE sc.kind = "return" ->
                  (IF Len(st.stack) = 1
                   THEN (IF DevUnderflowPanics THEN Res(st, "panic", NoTok) ELSE Err(st, "underflow"))
-                  ELSE Call(c, s, [st EXCEPT !.stack = PopStack(st.stack)]))
+                  ELSE CallM(c, s, [st EXCEPT !.stack = PopStack(st.stack)], opt))
             [] sc.kind = "none" -> Err(st, "nomatch")
             [] sc.kind = "badref" -> Err(st, "badref")
             [] sc.kind = "match" ->
@@ -66,8 +80,10 @@ Call(c, s, st) ==
                   IN IF sc.len = 0 THEN Err(st, "empty")       \* an action or a plain rule that matched nothing
                      ELSE IF under /\ ~DevUnderflowPanics THEN Err(st, "underflow")
                      ELSE IF under /\ r.elided THEN Res(st2, "panic", NoTok)
-                     ELSE IF r.elided THEN Call(c, s, st2)
+                     ELSE IF r.elided THEN CallM(c, s, st2, opt)
                      ELSE Res(st2, "run", [name |-> r.name, from |-> st.i, to |-> j, pos |-> st.pos]))
+
+Call(c, s, st) == CallM(c, s, st, [poss |-> FALSE, track |-> FALSE])
 
 InitLexer == [i |-> 1, pos |-> StartPos, stack |-> <<[name |-> "Root", groups |-> <<>>]>>]
 
